@@ -185,6 +185,44 @@ impl DecoderWork {
         self.received.clear();
     }
 
+    /// Verification hook: bookkeeping state of this working space.
+    #[cfg(feature = "verif-hooks")]
+    pub fn verif_snapshot(&self) -> crate::verif::DecoderSnapshot {
+        let (work_count, data_ptr, data_len, data_capacity) = self.shards.verif_info();
+        let mut received_original = Vec::new();
+        let mut received_recovery = Vec::new();
+        let mut received_elsewhere = 0;
+        for pos in self.received.ones() {
+            if pos >= self.original_base_pos && pos - self.original_base_pos < self.original_count
+            {
+                received_original.push(pos - self.original_base_pos);
+            } else if pos >= self.recovery_base_pos
+                && pos - self.recovery_base_pos < self.recovery_count
+            {
+                received_recovery.push(pos - self.recovery_base_pos);
+            } else {
+                received_elsewhere += 1;
+            }
+        }
+        crate::verif::DecoderSnapshot {
+            original_count: self.original_count,
+            recovery_count: self.recovery_count,
+            shard_bytes: self.shard_bytes,
+            original_received_count: self.original_received_count,
+            recovery_received_count: self.recovery_received_count,
+            received_original,
+            received_recovery,
+            received_elsewhere,
+            original_base_pos: self.original_base_pos,
+            recovery_base_pos: self.recovery_base_pos,
+            work_count,
+            data_ptr,
+            data_len,
+            data_capacity,
+            bitmap_len: self.received.len(),
+        }
+    }
+
     // This must only be called by `DecoderResult`.
     pub(crate) fn restored_original(&self, index: usize) -> Option<&[u8]> {
         let pos = self.original_base_pos + index;
